@@ -1,7 +1,6 @@
 (* Proofs about the biclosed -> rigid translation: the object map is a monoid
    homomorphism, every rule image has the translated domain and codomain, and
-   so has the image of every well-typed biclosed diagram (right currying within
-   its documented range of n_wires). *)
+   so has the image of every well-typed biclosed diagram. *)
 From Coq Require Import List ZArith Bool Lia.
 Import ListNotations.
 Require Import DV.Common.Base DV.Common.ListLemmas DV.Core.Diagram DV.Core.WF
@@ -328,35 +327,24 @@ Qed.
 
 Lemma rcurry_right_types d0 n d : wf d0 -> rcurry d0 n false = Ok d ->
   let wires := py_slice (ddom d0) (Some (py_or (- n) (len (ddom d0)))) None in
-  wf d /\ ddom d = py_slice (ddom d0) None (Some (len (ddom d0) - n)) /\
-  dcod d = dcod d0 ++ ty_l wires /\
-  py_slice (ddom d0) None (Some (len (ddom d0) - n)) ++ wires = ddom d0.
+  wf d /\ ddom d = py_slice (ddom d0) None (Some (py_or (- n) (len (ddom d0)))) /\
+  dcod d = dcod d0 ++ ty_l wires.
 Proof.
   unfold rcurry. intros W0 H. step H caps E1. step H a E2. step H b E3.
   destruct (dcaps_types _ _ _ E1) as (W1 & D1 & C1).
   destruct (dtensor_wf _ _ _ (did_wf _) W1 E2) as (W2 & D2 & C2).
   destruct (dtensor_wf _ _ _ W0 (did_wf _) E3) as (W3 & D3 & C3).
   destruct (dthen_wf _ _ _ W2 W3 H) as (W & D0 & C0).
-  destruct (dthen_inv _ _ _ H) as (Hm & _).
-  destruct W2 as (_ & A2 & _). destruct W3 as (B1 & _). rewrite A2, B1 in Hm.
   cbn zeta. split; [exact W|].
   cbn [did ddom dcod] in *. rewrite D0, C0, D2, D1, C3, app_nil_r.
-  split; [reflexivity|]. split; [reflexivity|].
-  rewrite C2, C1, D3, app_assoc in Hm. apply app_inv_tail in Hm. exact Hm.
+  split; reflexivity.
 Qed.
 
-(* the two slices of a right currying are complementary within the documented
-   range of n_wires *)
-Lemma right_split {A} (l : list A) n : 0 <= n <= len l ->
-  py_slice l None (Some (len l - n)) ++ py_slice l (Some (py_or (- n) (len l))) None = l.
-Proof.
-  intros Hn. unfold py_or. destruct (- n =? 0) eqn:E.
-  - apply Z.eqb_eq in E. replace (len l - n) with (len l) by lia.
-    rewrite py_prefix_len, py_suffix_len. apply app_nil_r.
-  - apply Z.eqb_neq in E. rewrite py_slice_prefix by lia. rewrite py_slice_suffix_clip.
-    unfold clip. destruct (- n <? 0) eqn:E'; [|lia].
-    replace (Z.max (- n + len l) 0) with (len l - n) by lia. apply firstn_skipn.
-Qed.
+(* the two slices of a right currying, dom[:k] and dom[k:] with
+   k = -n_wires or len(dom), are complementary for every n_wires *)
+Lemma right_split {A} (l : list A) n :
+  py_slice l None (Some (py_or (- n) (len l))) ++ py_slice l (Some (py_or (- n) (len l))) None = l.
+Proof. apply py_split_any. Qed.
 
 (* ------------------------------------------------------------ induction on boxes *)
 Section BboxInd.
@@ -559,7 +547,7 @@ Lemma curry_typed dom cod bs offs n lf d :
   box_good (XCurry dom cod bs offs n lf) = true -> f_box (XCurry dom cod bs offs n lf) = Ok d ->
   typed (XCurry dom cod bs offs n lf) d.
 Proof.
-  intros IH G H. cbn [box_good] in G. rewrite !andb_true_iff in G. destruct G as ((Gbs & Gs) & Gn).
+  intros IH G H. cbn [box_good] in G. apply andb_true_iff in G. destruct G as (Gbs & Gs).
   destruct (bscan dom bs offs) as [t|] eqn:S; [|discriminate]. apply bty_eqb_eq in Gs. subst t.
   rewrite f_box_curry in H. cbn [xcod] in H. destruct lf; cbn [ty_left ty_right bind] in H.
   - step H d0 E0.
@@ -574,22 +562,18 @@ Proof.
   - step H d0 E0.
     destruct (b2r_loop_types bs IH offs dom _ cod d0 Gbs S (did_wf _) eq_refl E0) as (W0 & D0 & C0).
     cbn [did ddom] in D0.
-    destruct (rcurry_right_types _ _ _ W0 H) as (W & Dd & Cd & _). split; [exact W|].
-    cbn [orb] in Gn. apply andb_true_iff in Gn. destruct Gn as (Gn1 & Gn2).
-    apply Z.leb_le in Gn1, Gn2.
+    destruct (rcurry_right_types _ _ _ W0 H) as (W & Dd & Cd). split; [exact W|].
     cbn [xdom xcod]. rewrite F_ty_one, F_ob_over. rewrite Dd, Cd, C0, D0.
     remember (py_slice dom (Some (py_or (- n) (len dom))) None) as wires eqn:Hwires.
-    remember (py_slice dom None (Some (len dom - n))) as X eqn:HX.
-    assert (Hsplit : dom = X ++ wires) by (subst; symmetry; apply right_split; lia).
+    remember (py_slice dom None (Some (py_or (- n) (len dom)))) as X eqn:HX.
+    assert (Hsplit : dom = X ++ wires) by (subst; symmetry; apply right_split).
     assert (HF : F_ty dom = F_ty X ++ F_ty wires) by (rewrite <- F_ty_app, <- Hsplit; reflexivity).
-    rewrite HF. clear HF Hsplit. rewrite len_app.
-    replace (len (F_ty X) + len (F_ty wires) - len (F_ty wires)) with (len (F_ty X)) by lia.
-    rewrite py_prefix_app. split; [reflexivity|]. f_equal. f_equal.
-    unfold py_or. destruct (- len (F_ty wires) =? 0) eqn:Ew.
+    rewrite HF. clear HF Hsplit. unfold py_or at 1 2.
+    destruct (- len (F_ty wires) =? 0) eqn:Ew.
     + apply Z.eqb_eq in Ew. assert (Hw : F_ty wires = []) by (apply len_zero_nil; lia).
-      rewrite Hw, app_nil_r. replace (len (F_ty X) + len (@nil ob)) with (len (F_ty X)) by (cbn; lia).
-      apply py_suffix_len.
-    + apply Z.eqb_neq in Ew. pose proof (len_nonneg (F_ty wires)). apply py_suffix_neg. lia.
+      rewrite Hw, app_nil_r, py_prefix_len, py_suffix_len. split; reflexivity.
+    + apply Z.eqb_neq in Ew. pose proof (len_nonneg (F_ty wires)).
+      rewrite py_prefix_neg, py_suffix_neg by lia. split; reflexivity.
 Qed.
 
 Theorem f_box_types : forall b d, box_good b = true -> f_box b = Ok d -> typed b d.
@@ -625,11 +609,11 @@ Proof.
   cbn [bind]. destruct (bty_eqb t cod); [|discriminate]. intros H; inversion H; auto.
 Qed.
 
-Lemma build_box_built : forall b, build_box b = Ok tt -> box_built b = true.
+Lemma build_box_built : forall b, build_box b = Ok tt -> box_good b = true.
 Proof.
   induction b as [n dm c|o|u|l r|l r|l r|l r|dm c bs offs n lf IH] using bbox_ind'; intros H;
-    try (cbn [build_box] in H; cbn [box_built]; rewrite H; reflexivity).
-  cbn [build_box] in H. cbn [box_built].
+    try (cbn [build_box] in H; cbn [box_good]; rewrite H; reflexivity).
+  cbn [build_box] in H. cbn [box_good].
   match type of H with (do _ <- ?all bs; _) = _ => destruct (all bs) as [[]|] eqn:Ea; [cbn [bind] in H|discriminate] end.
   destruct (bmk dm c bs offs) as [D|] eqn:Em; [|discriminate].
   destruct (bmk_built _ _ _ _ _ Em) as (_ & ->). rewrite andb_true_r.
@@ -638,22 +622,13 @@ Proof.
   cbn [forallb]. rewrite (Hb eq_refl), IHbs; auto.
 Qed.
 
-Theorem build_built dom cod bs offs D : build dom cod bs offs = Ok D -> diagram_built D = true.
+Theorem build_built dom cod bs offs D : build dom cod bs offs = Ok D -> diagram_good D = true.
 Proof.
   unfold build. destruct (build_boxes bs) as [[]|] eqn:Eb; [cbn [bind]|discriminate]. intros H.
-  destruct (bmk_built _ _ _ _ _ H) as (-> & Hs). unfold diagram_built. cbn [xd_boxes xd_dom xd_cod xd_offs].
+  destruct (bmk_built _ _ _ _ _ H) as (-> & Hs). unfold diagram_good. cbn [xd_boxes xd_dom xd_cod xd_offs].
   rewrite Hs, andb_true_r. clear H Hs. induction bs as [|b bs IH]; [reflexivity|].
   cbn [build_boxes] in Eb. destruct (build_box b) as [[]|] eqn:E; [cbn [bind] in Eb|discriminate].
   cbn [forallb]. rewrite (build_box_built _ E), IH; auto.
-Qed.
-
-(* a good box is a built box *)
-Lemma box_good_built : forall b, box_good b = true -> box_built b = true.
-Proof.
-  induction b as [n dm c|o|u|l r|l r|l r|l r|dm c bs offs n lf IH] using bbox_ind'; intros H; auto.
-  - cbn [box_good] in H. cbn [box_built]. rewrite !andb_true_iff in H. destruct H as ((H1 & ->) & _).
-    rewrite andb_true_r. induction IH as [|b bs Hb _ IHbs]; [reflexivity|].
-    cbn [forallb] in *. apply andb_true_iff in H1. destruct H1. rewrite Hb, IHbs; auto.
 Qed.
 
 (* ------------------------------------------------------------ former findings, now regressions *)
@@ -675,7 +650,7 @@ Example ba_composite_image :
             length (dboxes d) = 2%nat /\ dcod d = [Ob 376 0].
 Proof. eexists. split; [vm_compute; reflexivity|]. split; reflexivity. Qed.
 
-(* F21 (fixed by fbf277b): right currying of zero wires, and of a wire whose
+(* F21 (fixed by d9e48bc): right currying of zero wires, and of a wire whose
    type translates to Ty() *)
 Example curry_zero_good :
   diagram_good (BD [ax] [BOver [ay] []] [XCurry [ax] [ay] [XBox 21 [ax] [ay]] [0] 0 false] [0]) = true
@@ -688,21 +663,13 @@ Example curry_zero_image :
             ddom d = [Ob 376 0] /\ dcod d = [Ob 377 0].
 Proof. eexists. split; [vm_compute; reflexivity|]. split; reflexivity. Qed.
 
-(* the range condition on right currying cannot be dropped: for n_wires >
-   len(dom) (outside the documented range) the repaired Curry box takes
-   dom[:len(dom) - n_wires] (a negative index) as domain but curries the whole
-   domain; the image of the box is mistyped and the translation of the diagram
-   is refused *)
-Theorem curry_overlong_refuted_lemma :
-  exists dom cod bs offs D b d,
-    build dom cod bs offs = Ok D /\ bs = [b] /\ b2r D = Err AxiomError /\
-    f_box b = Ok d /\ ddom d <> F_ty (xdom b).
-Proof.
-  exists [ax], [BOver [az] [ax; ay]], [XCurry [ax; ay] [az] [XBox 21 [ax; ay] [az]] [0] 3 false], [0].
-  eexists. eexists. eexists. split; [vm_compute; reflexivity|]. split; [reflexivity|].
-  split; [vm_compute; reflexivity|]. split; [vm_compute; reflexivity|].
-  vm_compute. discriminate.
-Qed.
+(* right currying with n_wires outside 0..len(dom) (over-long, negative): the
+   box's domain dom[:k] and the curried wires dom[k:] (k = -n_wires or len(dom))
+   stay complementary, so these requests are translated type-correctly too *)
+Example curry_overlong_good :
+  diagram_good (BD [] [BOver [az] [ax; ay]] [XCurry [ax; ay] [az] [XBox 21 [ax; ay] [az]] [0] 3 false] [0]) = true
+  /\ diagram_good (BD [ax] [BOver [az] [ay]] [XCurry [ax; ay] [az] [XBox 21 [ax; ay] [az]] [0] (-1) false] [0]) = true.
+Proof. split; vm_compute; reflexivity. Qed.
 
 (* ------------------------------------------------------------ non-vacuity *)
 (* forward application over a composite argument, a unary backward application,
